@@ -60,7 +60,7 @@ def shipped_itp():
 def cases(ctx):
     for p in shipped_itp():
         yield {'kind': 'shipped', 'file': os.path.basename(p)}
-    n = 300 if ctx.tier == 'quick' else 20000
+    n = 300 if ctx.tier == 'quick' else 300000
     for i in range(n):
         yield {'kind': 'gen', 'i': i}
 
